@@ -67,6 +67,11 @@ def paths_for(desc: tuple) -> List[str]:
                 walk(sub, prefix + name + '.')
         out.append(prefix + 'u')
         out.append(prefix + 'u.v')
+        # below an undeclared name, names that are declared one level up (they mean nothing there)
+        for name, sub in e[5]:
+            out.append(prefix + 'u.' + name)
+            if not R.is_port(sub):
+                out.append(prefix + 'u.' + name + '.v')
 
     walk(desc, '')
     return out
